@@ -12,8 +12,7 @@ namespace Crusta
 def Bounded {α : Type} (p : Prog α) (n : Nat) : Prop :=
   ∀ (rs : List Reply) (w : World), (interp p rs w).2.calls ≤ w.calls + n
 
-@[simp] theorem Prog.bind_eq {α β : Type} (p : Prog α) (f : α → Prog β) : (p >>= f) = Prog.bind p f := rfl
-@[simp] theorem Prog.pure_eq {α : Type} (a : α) : (pure a : Prog α) = Prog.pure a := rfl
+attribute [local simp] Prog.bind_eq Prog.pure_eq
 
 theorem Bounded.mono {α : Type} {p : Prog α} {n m : Nat} (h : Bounded p n) (hnm : n ≤ m) : Bounded p m :=
   fun rs w => Nat.le_trans (h rs w) (by omega)
